@@ -5,6 +5,7 @@ import (
 	"fmt"
 	"math/big"
 	"math/rand"
+	"reflect"
 	"sort"
 	"strings"
 	"time"
@@ -227,6 +228,7 @@ type vOp struct {
 	start, end      int64
 	denoms          []string
 	custom          bool
+	respelled       bool // addresses of the message are in upper-case bech32
 	desc            string
 }
 
@@ -277,6 +279,37 @@ func (e *vestEnv) randRecipient(r *rand.Rand) string {
 }
 
 func (e *vestEnv) genOp(r *rand.Rand, now time.Time) vOp {
+	op := e.genOp0(r, now)
+	if op.custom && r.Intn(8) == 0 {
+		// the same addresses in their other valid spelling (bech32 is case-insensitive as a
+		// whole): the signer and the account are the same, only the string differs
+		respellAddresses(op.msg)
+		op.respelled = true
+		op.desc += " [uppercase addresses]"
+	}
+	return op
+}
+
+// respellAddresses upper-cases every valid bech32 account address held in a string field.
+func respellAddresses(msg sdk.Msg) {
+	v := reflect.ValueOf(msg)
+	if v.Kind() != reflect.Ptr || v.Elem().Kind() != reflect.Struct {
+		return
+	}
+	v = v.Elem()
+	for i := 0; i < v.NumField(); i++ {
+		f := v.Field(i)
+		if f.Kind() == reflect.String && f.CanSet() {
+			if _, err := sdk.AccAddressFromBech32(f.String()); err == nil {
+				if _, err := sdk.AccAddressFromBech32(strings.ToUpper(f.String())); err == nil {
+					f.SetString(strings.ToUpper(f.String()))
+				}
+			}
+		}
+	}
+}
+
+func (e *vestEnv) genOp0(r *rand.Rand, now time.Time) vOp {
 	pools := e.pools()
 	owner := e.owners[r.Intn(len(e.owners))]
 	var fee sdk.Coins
